@@ -3,7 +3,10 @@ package props
 import (
 	"fmt"
 	"regexp"
+	"strconv"
 	"strings"
+
+	"github.com/paulsonkoly/calc/types/bytecode"
 
 	"verif/harness/ref"
 )
@@ -109,6 +112,9 @@ func checkReport(rr ref.Result, printed string) string {
 	if got.marks != 1 {
 		return fmt.Sprintf("%d marked instructions", got.marks)
 	}
+	if why := checkListing(printed); why != "" {
+		return why
+	}
 	fam, ok := opFamilies[want.Op]
 	if !ok {
 		return "unknown op " + want.Op
@@ -158,6 +164,54 @@ func checkReport(rr ref.Result, printed string) string {
 			if g.Name != w.Name || strings.Join(g.Args, "|") != strings.Join(w.Args, "|") {
 				return fmt.Sprintf("context %d call %d: %v want %v", i, j, g, w)
 			}
+		}
+	}
+	return ""
+}
+
+var reListing = regexp.MustCompile(`^(?:-->|   ) *\d+: (0X[0-9A-F]{16}) : ([^;]*)`)
+
+// checkListing: every line of the instruction window (the marked one included)
+// prints the instruction word and its disassembly; the text has to be the
+// instruction the VM executes, that is the opcode and operands the word decodes
+// to through the accessors the VM itself uses.
+func checkListing(printed string) string {
+	i := strings.Index(printed, "RUNTIME ERROR : ")
+	if i < 0 {
+		return ""
+	}
+	for _, l := range strings.Split(printed[i:], "\n") {
+		m := reListing.FindStringSubmatch(l)
+		if m == nil {
+			continue
+		}
+		w, err := strconv.ParseUint(m[1][2:], 16, 64)
+		if err != nil {
+			return fmt.Sprintf("bad instruction word in %q", l)
+		}
+		b := bytecode.Type(w)
+		opnd := func(kind uint64, addr int) string {
+			switch kind {
+			case bytecode.AddrDS:
+				return fmt.Sprintf("DS[%d] ", addr)
+			case bytecode.AddrCls:
+				return fmt.Sprintf("CLS[%d] ", addr)
+			case bytecode.AddrLcl:
+				return fmt.Sprintf("LCL[%d] ", addr)
+			case bytecode.AddrGbl:
+				return fmt.Sprintf("GBL[%d] ", addr)
+			case bytecode.AddrStck:
+				return "STCK "
+			case bytecode.AddrTmp:
+				return "TMP "
+			case bytecode.AddrImm:
+				return fmt.Sprintf("%d ", addr)
+			}
+			return ""
+		}
+		want := fmt.Sprintf("%v %s%s%s", b.OpCode(), opnd(b.Src2(), b.Src2Addr()), opnd(b.Src1(), b.Src1Addr()), opnd(b.Src0(), b.Src0Addr()))
+		if strings.TrimSpace(m[2]) != strings.TrimSpace(want) {
+			return fmt.Sprintf("listing line %q shows %q, the instruction word decodes to %q", l, strings.TrimSpace(m[2]), strings.TrimSpace(want))
 		}
 	}
 	return ""
